@@ -34,3 +34,9 @@ mod builtin_imports {
         sync::Arc,
     };
 }
+
+#[cfg(feature = "verif-hooks")]
+pub(crate) mod verif_reexport {
+    pub(crate) use super::functions::list::{length, nth, set_nth};
+    pub(crate) use super::functions::string::{str_index, str_insert, str_length, str_slice};
+}
